@@ -301,7 +301,7 @@ func runC13(c *Ctx) {
 				ws = append(ws, string([]byte{l}))
 				if variant >= 2 && (i%5 == 0 || i == b-1) {
 					for j := 0; j < b && j < 10; j++ {
-						ws = append(ws, string([]byte{l, byte(j * (b / 10 + 1) % b)}))
+						ws = append(ws, string([]byte{l, byte(j * (b/10 + 1) % b)}))
 					}
 				}
 			}
